@@ -421,6 +421,8 @@ def shared(ctx):
     from rules.engine import core
     from rules.props import c03
     core.import_rules(ctx, [c03.r5_globals], "X03")
+    from rules.props import c01
+    core.import_rules(ctx, [c01.r10_no_wraparound], "X01")     # fee pool and tips stop at the top of their range, they do not wrap
 
 
 RULES = [r1_fee_gate, r2_split, r3_reward, shared]
